@@ -72,6 +72,10 @@ class ParamsGenerator:
 
     if model_qsvs is None:
       model_qsvs = {}
+    else:
+      # Materialization functions overwrite QSVs in place (same-as-input-scale
+      # and fixed-range ops); do not modify the caller's calibration result.
+      model_qsvs = copy.deepcopy(model_qsvs)
 
     op_codes = self.flatbuffer_model.operatorCodes
     for subgraph in self.flatbuffer_model.subgraphs:
